@@ -440,6 +440,88 @@ class _PositiveElse(ast.NodeTransformer):
         return node
 
 
+def _body_terminates(body):
+    if not body:
+        return False
+    last = body[-1]
+    if isinstance(last, (ast.Return, ast.Raise, ast.Continue, ast.Break)):
+        return True
+    if isinstance(last, ast.If):
+        return _body_terminates(last.body) and _body_terminates(last.orelse)
+    return False
+
+
+def no_else_after_terminating_if(func):
+    """``if c: <body ending in return / raise / continue / break>`` / ``else: B``  ->  the same
+    ``if`` without else, followed by B (an elif chain of terminating branches becomes a sequence of
+    guard clauses; the two spellings have the same control-flow graph)"""
+
+    def fix(body):
+        out = []
+        for st in body:
+            if isinstance(st, _FUNC):
+                out.append(st)
+                continue
+            for f in ('body', 'orelse', 'finalbody'):
+                v = getattr(st, f, None)
+                if isinstance(v, list) and v and isinstance(v[0], ast.stmt):
+                    setattr(st, f, fix(v))
+            for h in getattr(st, 'handlers', ()):
+                h.body = fix(h.body)
+            if isinstance(st, ast.If) and st.orelse and _body_terminates(st.body):
+                tail = st.orelse
+                st.orelse = []
+                out.append(st)
+                out.extend(tail)
+            else:
+                out.append(st)
+        return out
+
+    func.body = fix(func.body)
+
+
+def split_chained_assign(func):
+    """``a = b = v``  ->  ``a = v; b = v`` when v is a plain name / constant, and
+    ``x = t2 = .. = v``  ->  ``x = v; t2 = x; ..`` when the first target is a local name that the
+    other targets do not mention (targets are assigned left to right, v is evaluated once)"""
+
+    def simple(v):
+        return isinstance(v, (ast.Name, ast.Constant))
+
+    def fix(body):
+        out = []
+        for st in body:
+            if isinstance(st, _FUNC):
+                out.append(st)
+                continue
+            if isinstance(st, ast.Assign) and len(st.targets) > 1:
+                first = st.targets[0]
+                rest = st.targets[1:]
+                new = None
+                if simple(st.value):
+                    new = [ast.Assign(targets=[t], value=copy.deepcopy(st.value), lineno=st.lineno) for t in st.targets]
+                elif isinstance(first, ast.Name) and not any(isinstance(n, ast.Name) and n.id == first.id
+                                                             for t in rest for n in ast.walk(t)):
+                    new = [ast.Assign(targets=[first], value=st.value, lineno=st.lineno)]
+                    new += [ast.Assign(targets=[t], value=ast.Name(id=first.id, ctx=ast.Load()), lineno=st.lineno) for t in rest]
+                if new:
+                    for n in new:
+                        ast.copy_location(n, st)
+                        ast.fix_missing_locations(n)
+                    out.extend(new)
+                    continue
+            for f in ('body', 'orelse', 'finalbody'):
+                v = getattr(st, f, None)
+                if isinstance(v, list) and v and isinstance(v[0], ast.stmt):
+                    setattr(st, f, fix(v))
+            for h in getattr(st, 'handlers', ()):
+                h.body = fix(h.body)
+            out.append(st)
+        return out
+
+    func.body = fix(func.body)
+
+
 def split_tuple_assign(func):
     """``a, b = x, y`` with distinct local names on the left that do not occur on the right
     ->  ``a = x; b = y`` (left-to-right evaluation is the same)"""
@@ -628,6 +710,8 @@ def apply_all(tree):
     tree = _PositiveElse().visit(tree)
     for node in ast.walk(tree):
         if isinstance(node, (ast.FunctionDef, ast.AsyncFunctionDef)):
+            no_else_after_terminating_if(node)
+            split_chained_assign(node)
             split_tuple_assign(node)
             append_loop_to_comprehension(node)
             propagate_type_temps(node)
